@@ -279,7 +279,7 @@ func (s *Script) evalWithRoot(stack, data, root any) (any, Expr) {
 						if 0 < len(x) && isRootFrag(x[0]) {
 							ev = x.Get(root)
 						} else {
-							ev = x.Get(v)
+							ev = x.getWithRoot(v, root)
 						}
 					} else {
 						ev = nil
@@ -324,7 +324,7 @@ func (s *Script) evalWithRoot(stack, data, root any) (any, Expr) {
 						sstack[i] = Nothing
 					}
 				} else {
-					values := x.Get(dv)
+					values := x.getWithRoot(dv, root)
 					switch len(values) {
 					case 0:
 						sstack[i] = Nothing
